@@ -108,6 +108,10 @@ Second deepening round (2026-09-26):
 Round 6 (seeded r6m2: the cycle error message joined node names -> TypeError for an anonymous node): 12% of the
   generated nodes get name None through the public setter after construction (node["anon"]), in cyclic and acyclic
   cases, main graph and bodies; model and oracle ignore names (ValueError iff cyclic).
+Final pass (seeded r4m1 again — only leaf nodes of a body recorded as predecessors: equivalent on well-scoped
+  scopes, differs only when a body value is consumed outside the enclosing node's subtree): the illscoped mode now
+  adds such consumers deliberately (60% of the illscoped units); search() alternates ordered / ill-scoped
+  regenerated units and no longer keeps the history of the case it replaced (that made the shrunk case unrunnable).
 Modelled, not verified: heapq (contract only), DoublyLinkedSet internals (C11), node.graph bookkeeping
   and name authority (C01), dict/set iteration order (independent per-graph relinking).
 Finding, fixed in /repo by 86f4e6a (known_findings.d/C12.json, status "fixed"): a GRAPH/GRAPHS-typed
@@ -604,6 +608,18 @@ def gen_unit(rng, ids: list, gids: list, mode: str, size: int, maxdepth: int = 4
         for _ in range(rng.choice([1, 2, 3])):
             c, p = rng.choice(allids), rng.choice(allids)
             byid[c]["ins"].insert(rng.randrange(len(byid[c]["ins"]) + 1), [p, rng.randrange(byid[p]["nout"])])
+        if rng.random() < 0.6:
+            # targeted: a value produced inside a body is consumed OUTSIDE the subtree of the enclosing node
+            # (the body node then has a consumer that does not lead back to the enclosing node)
+            inner = [x for x in allids if len(anc[x]) >= 2]
+            for _ in range(rng.choice([1, 2])):
+                if not inner:
+                    break
+                sid = rng.choice(inner)
+                outside = [x for x in allids if anc[sid][-1] not in anc[x] and pos[x] > pos[sid]]
+                if outside:
+                    c = rng.choice(outside)
+                    byid[c]["ins"].insert(rng.randrange(len(byid[c]["ins"]) + 1), [sid, rng.randrange(byid[sid]["nout"])])
     # physical order of every graph
     for gr in walk_graphs(g):
         if mode == "sorted" or rng.random() < 0.15:
@@ -1546,20 +1562,26 @@ def search(ck) -> None:
     budget = 3000 if not ck.thorough else 30000
     for i in range(budget):
         case = gen_case(ck.rng, small=(i % 2 == 0))
-        if i % 3 == 0 and case["kind"] != "pass":
-            # force the stability rule: re-generate as an already ordered scope
+        if i % 3 != 2 and case["kind"] != "pass":
+            # force the stability rule (an already ordered scope) or the cross-scope dependency rules (references
+            # leaving their scope): re-generate the unit; the old history / flags do not apply to it
             ids, gids = [0], [0]
-            case["units"] = [gen_unit(ck.rng, ids, gids, "sorted", ck.rng.choice([4, 8, 14]))]
+            mode = "sorted" if i % 3 == 0 else "illscoped"
+            case = {"kind": case["kind"], "units": [gen_unit(ck.rng, ids, gids, mode, ck.rng.choice([4, 8, 14]))],
+                    "target": None, "alloc": case.get("alloc", 0), "mode": mode}
             case["target"] = case["units"][0]["gid"]
-            case["mode"] = "sorted"
         ck.count()
         try:
             obs, bad = check_case(case)
-        except Exception as e:  # noqa: BLE001
-            bad, obs = [f"harness could not run the case: {e!r}"], {"before": None, "after": None, "outcome": None}
+        except Exception:  # noqa: BLE001      (a case the harness cannot run is not evidence of anything)
+            continue
         if bad:
             small = shrink(case, _oracle_fails)
-            obs, bad2 = check_case(small)
+            try:
+                obs, bad2 = check_case(small)
+            except Exception:  # noqa: BLE001
+                small = case
+                obs, bad2 = check_case(case)
             ck.violation({"kind": "oracle-after-broken-obligation", "case": small, "failures": bad2 or bad,
                           "before": obs["before"], "after": obs["after"], "outcome": obs["outcome"],
                           "broken": ck.broken_items})
